@@ -26,6 +26,9 @@ def gen(rng, tier="quick", **force):
     # real non-symmetric H_0 with complex-conjugate eigenvalue pairs that are split between the explicit and
     # the implicit subspace (real dtype of H_0, complex eigenvectors)
     spec["real_pairs"] = bool((not spec["hermitian"]) and (not spec["complex"]) and rng.random() < 0.5)
+    # two distinct levels of equal magnitude inside one explicit block: +E / -E (chiral or particle-hole symmetric
+    # spectrum) or E / conj(E) (non-Hermitian)
+    spec["mirror_pairs"] = bool((not spec["degenerate"]) and rng.random() < 0.35)
     # real H_0 and eigenvectors, first perturbation real, last perturbation complex (real hopping + imaginary spin-orbit term)
     spec["mixed_terms"] = bool((not spec["complex"]) and spec["n_par"] >= 2 and rng.random() < 0.5)
     # normal but non-Hermitian H_0 (unitary eigenbasis, complex eigenvalues): the explicit subspaces may then be
@@ -99,6 +102,14 @@ def build(spec):
         for s in sizes:
             if s >= 2 and spec["degenerate"]:
                 E[off + 1] = E[off]
+            off += s
+    if spec.get("mirror_pairs"):
+        off = 0
+        for s in sizes:
+            if s >= 2 and E[off] != 0:
+                cand = np.conj(E[off]) if (not hermitian and cplx and E[off].imag != 0 and rng.random() < 0.5) else -E[off]
+                if not np.any(np.isclose(E, cand)):
+                    E[off + 1] = cand
             off += s
     if spec.get("real_pairs") and not hermitian and not cplx:
         # states (2m, 2m+1) for m < npairs carry lambda, conj(lambda); the explicit blocks take the states
